@@ -140,7 +140,7 @@ def flow_stress(self):
     return 50e6 * (1 + self.strain) ** 0.2 * self.roll_pass.strain_rate ** 0.1
 
 
-def make_sequence(k, three=False, small=False):
+def make_sequence(k, three=False, small=False, bare=False):
     from pyroll.core import Roll, RollPass, ThreeRollPass, Transport, RoundGroove, CircularOvalGroove, PassSequence, Profile
     if small:
         # the same process at a fraction of the usual size (wire of 3 mm .. 0.3 mm instead of a 30 mm bar)
@@ -154,6 +154,10 @@ def make_sequence(k, three=False, small=False):
                                                  rotational_frequency=1), gap=2e-3 * k),
         ])
         ip = Profile.round(diameter=30e-3 * k, temperature=1473.15, material=["C45", "steel"], length=1 * k, density=7.5e3 / k ** 2)
+        if bare:
+            # only what a solve needs: every optional value (length, density, strain, time, position) is left to the defaults of the package,
+            # which must not smuggle in a length of their own
+            ip = Profile.round(diameter=30e-3 * k, temperature=1473.15, material=["C45", "steel"])
     else:
         seq = PassSequence([
             ThreeRollPass(label="Oval I", roll=Roll(groove=CircularOvalGroove(depth=8e-3 * k, r1=6e-3 * k, r2=40e-3 * k, pad_angle=30),
@@ -209,13 +213,13 @@ class Grab(logging.Handler):
             self.msgs.append(re.sub(r"of .* after", "after", m))
 
 
-def sequence_twins(chk, ks, three, small=False):
+def sequence_twins(chk, ks, three, small=False, bare=False):
     from pyroll.core import RollPass, ThreeRollPass
     lg = logging.getLogger("pyroll")
     old = lg.level
 
     def solve(k):
-        seq, ip = make_sequence(k, three, small)
+        seq, ip = make_sequence(k, three, small, bare)
         h = Grab()
         lg.setLevel(logging.INFO)
         lg.addHandler(h)
@@ -287,6 +291,7 @@ def run(chk):
     from_groove_twins(chk, ks_geo)
     n1 = sequence_twins(chk, ks_seq, three=False)
     n2 = sequence_twins(chk, ks_seq[:1], three=True)
+    n2 += sequence_twins(chk, ks_seq[:1], three=False, bare=True)
     for base in (0.1, 0.03, 0.01, 10.0, 40.0):      # wire ... heavy sections: small products and large numbers in small units
         n1 += sequence_twins(chk, ks_seq[:1] + [100.0], three=False, small=base)
     spline_twins(chk, ks_geo)
